@@ -263,7 +263,11 @@ def extra(tier, seed, known):
     chunk = 12
     for i in range(0, len(lens), chunk):
         tasks.append({"fn": "c13_join", "unit": f"join_with_limit/{i // chunk:03d}", "lens": lens[i : i + chunk]})
-    return tasks, {"error_context_units": len([t for t in tasks if t["fn"] == "c13_ec"]), "join_with_limit_units": len([t for t in tasks if t["fn"] == "c13_join"])}
+    if tier == "thorough":
+        from . import chx
+
+        tasks += chx.tasks(["_error_context_matches_definition", "_error_context_never_raises", "_join_with_limit_respects_limit"], 150)
+    return tasks, {"error_context_units": len([t for t in tasks if t["fn"] == "c13_ec"]), "join_with_limit_units": len([t for t in tasks if t["fn"] == "c13_join"]), "crosshair_second_engine_units": len([t for t in tasks if t["fn"] == "crosshair"])}
 
 
 famdriver.EXTRA["C13"] = extra
